@@ -778,6 +778,26 @@ pub fn candidates(spec: &Spec, k: usize, r: &mut Rng, random_extra: usize) -> Ve
     let none = |_: usize, _: usize, _: usize| -> Option<String> { None };
     let canonical = render(spec, k, &none, &default_counts);
     out.push(Candidate { content: canonical.clone(), component: "-".into(), class: "canonical".into() });
+    // party identifier ([/1!a][/34x] on the first line): code part of two letters or one digit (clearing-system
+    // codes such as /CH/, /FW/ are written that way) with each character class inside the identifier behind it
+    if let Some(l0) = spec.lines.first()
+        && l0.comps.len() >= 2
+        && l0.comps[0].name == "code"
+        && l0.comps[1].name == "account"
+    {
+        let rest: String = canonical.lines().skip(if canonical.starts_with('/') { 1 } else { 0 }).collect::<Vec<_>>().join("\n");
+        for code in ["CH", "FW", "1", "C"] {
+            for (cname, ch) in CLASS_CHARS {
+                for id in [format!("12{ch}456"), format!("{ch}12345"), format!("12345{ch}")] {
+                    let first = format!("/{code}/{id}");
+                    let content = if rest.is_empty() { first } else { format!("{first}\n{rest}") };
+                    out.push(Candidate { content, component: "account".into(), class: format!("class={cname},code-part={code}") });
+                }
+            }
+            let first = format!("/{code}/");
+            out.push(Candidate { content: if rest.is_empty() { first } else { format!("{first}\n{rest}") }, component: "account".into(), class: format!("len=0,code-part={code}") });
+        }
+    }
     // numbered lines: sequences of line numbers other than 1, 2, 3, ...
     if spec.lines.iter().any(|l| l.comps.iter().any(|c| c.name == "lineno")) {
         let account = canonical.lines().next().filter(|l| l.starts_with('/')).map(|l| format!("{l}\n")).unwrap_or_default();
